@@ -2988,6 +2988,7 @@ impl Zeroconf {
         // other.
         let mut changes = Vec::new();
         let mut timers = Vec::new();
+        let mut refreshed_pending = HashSet::new();
         let Some(my_intf) = self.my_intfs.get(&if_index) else {
             return;
         };
@@ -3036,6 +3037,27 @@ impl Zeroconf {
                 Some((dns_record, false)) => {
                     timers.push(dns_record.record.get_record().get_expire_time());
                     timers.push(dns_record.record.get_record().get_refresh_time());
+
+                    // A refreshed record is no news, unless an instance that was
+                    // found is still waiting to be resolved: the copy it held of
+                    // this record may have been about to expire at that time.
+                    let ty = dns_record.record.get_type();
+                    let name = dns_record.record.get_name().to_string();
+                    match ty {
+                        RRType::SRV | RRType::TXT => {
+                            if self.pending_resolves.contains(&name) {
+                                refreshed_pending.insert(name);
+                            }
+                        }
+                        RRType::A | RRType::AAAA => {
+                            for instance in self.cache.get_instances_on_host(&name) {
+                                if self.pending_resolves.contains(&instance) {
+                                    refreshed_pending.insert(instance);
+                                }
+                            }
+                        }
+                        _ => {}
+                    }
                 }
                 _ => {}
             }
@@ -3062,7 +3084,7 @@ impl Zeroconf {
         }
 
         // Identify the instances that need to be "resolved".
-        let mut updated_instances = HashSet::new();
+        let mut updated_instances = refreshed_pending;
         for update in changes {
             match update.ty {
                 RRType::PTR | RRType::SRV | RRType::TXT => {
